@@ -53,8 +53,10 @@ def make_case(rng, LA, LB, branch, ecpL=None, benign=False, twin=None):
         B = list(C)
     if branch == "A=B":
         B = list(A)
-    def shell(atom, l):
-        n = rng.choice([1, 1, 2])
+    def shell(atom, l, nmin=1):
+        # twins must be contracted: with one primitive each, equal exponents make the two derivative blocks equal by bilinearity,
+        # whatever the coefficients are, and a shortcut keyed on the exponents alone cannot show
+        n = rng.choice([1, 1, 2]) if nmin == 1 else rng.choice([2, 2, 3])
         lo, hi = (-0.1, 0.6) if benign else (-0.5, 0.9)
         return "shell %d %d %d %s" % (atom, l, n, " ".join("%r %r" % (round(10 ** rng.uniform(lo, hi), 4), round(rng.choice([-1, 1]) * rng.uniform(0.3, 1.3), 4)) for _ in range(n)))
     L = ecpL if ecpL is not None else rng.choice([1, 2, 2, 3])
@@ -63,7 +65,7 @@ def make_case(rng, LA, LB, branch, ecpL=None, benign=False, twin=None):
         for _ in range(rng.choice([1, 1, 2])):
             n = 2 if benign else rng.choice([2, 2, 2, 1, 0])
             prims.append("%d %d %r %r" % (n, l, round(10 ** rng.uniform(-0.2, 0.6), 4), round(rng.uniform(-3, 5), 4)))
-    shA, shB = shell(0, LA), shell(1, LB)
+    shA, shB = shell(0, LA, 2 if (twin and LA == LB) else 1), shell(1, LB)
     if twin and LA == LB:
         # general contraction: the second shell has the exponents of the first; "same" also copies the coefficients
         t = shA.split()
